@@ -94,6 +94,15 @@ def run_shards(prop, tier, seed, meta, replay=None):
                 if os.path.exists(outfile):
                     with open(outfile) as f:
                         rep = json.load(f)
+                elif os.path.exists(outfile + '.ckpt'):
+                    # the shard's interpreter died (signal / watchdog): keep what it had observed until then
+                    with open(outfile + '.ckpt') as f:
+                        rep = json.load(f)
+                    rep['died'] = ('watchdog' if timed_out else f'rc={rc}')
+                    rep.setdefault('inconclusives', []).append(
+                        {'msg': f'shard interpreter died ({rep["died"]}); observations up to its last checkpoint kept',
+                         'witness': None})
+                    rep['n_inconclusive'] = rep.get('n_inconclusive', 0) + 1
                 if rep is None:
                     with open(logfile, 'rb') as f:
                         tail = f.read()[-3000:].decode('utf-8', 'replace')
@@ -139,6 +148,8 @@ def merge(reports):
             m['hashseeds'].append(r['hashseed'])
         if r.get('crashed'):
             m['crashed'] += 1
+        if r.get('died'):
+            m['counters']['shards_died_after_checkpoint'] += 1
         if r.get('labtech_file'):
             m['labtech_files'].add(r['labtech_file'])
         if r.get('exhaustive') is not None:
